@@ -262,6 +262,8 @@ def compare(rec, clause, live, shadow, scale, what, key=None):
                                                        np.shape(va) == np.shape(vb) and np.array_equal(va, vb))
             elif f == 'conic' and (va is None or vb is None):
                 same = True    # conic of a plane is not observable
+            elif f == 'radius' and isinstance(va, float) and isinstance(vb, float) and math.isinf(va) and math.isinf(vb):
+                same = True    # a plane is a plane whatever the sign of its infinite radius
             else:
                 same = (va == vb) or (isinstance(va, float) and isinstance(vb, float) and math.isnan(va) and math.isnan(vb))
             if not same:
